@@ -25,58 +25,100 @@ func init() {
 	})
 }
 
-// isDoneRecv: the node receives from <recv>.ctx.Done() where ctx is field ctxFld.
+// isDoneRecv: the node tests the context stored in field ctxFld: it receives from <recv>.ctx.Done() (a select
+// clause) or calls <recv>.ctx.Err() (`if q.ctx.Err() != nil`).
 func isDoneRecv(info *types.Info, n ast.Node, ctxFld *types.Var) bool {
 	found := false
 	eng.InspectNoLit(n, func(m ast.Node) bool {
-		u, ok := m.(*ast.UnaryExpr)
-		if !ok || u.Op != token.ARROW {
-			return true
-		}
-		cl, isC := ast.Unparen(u.X).(*ast.CallExpr)
-		if !isC {
-			return true
-		}
-		s, isS := ast.Unparen(cl.Fun).(*ast.SelectorExpr)
-		if isS && s.Sel.Name == "Done" && eng.IsField(info, s.X, ctxFld) {
-			found = true
+		switch u := m.(type) {
+		case *ast.UnaryExpr:
+			if u.Op != token.ARROW {
+				return true
+			}
+			cl, isC := ast.Unparen(u.X).(*ast.CallExpr)
+			if !isC {
+				return true
+			}
+			s, isS := ast.Unparen(cl.Fun).(*ast.SelectorExpr)
+			if isS && s.Sel.Name == "Done" && eng.IsField(info, s.X, ctxFld) {
+				found = true
+			}
+		case *ast.CallExpr:
+			if isCtxErrCall(info, u, ctxFld) {
+				found = true
+			}
 		}
 		return true
 	})
 	return found
 }
 
-// doneClausesReturn: every select clause in body that receives from ctx.Done() ends by returning (want nil result when
-// wantNil), without falling through to the rest of the function.
+func isCtxErrCall(info *types.Info, e ast.Expr, ctxFld *types.Var) bool {
+	cl, ok := ast.Unparen(e).(*ast.CallExpr)
+	if !ok || len(cl.Args) != 0 {
+		return false
+	}
+	s, isS := ast.Unparen(cl.Fun).(*ast.SelectorExpr)
+	return isS && s.Sel.Name == "Err" && eng.IsField(info, s.X, ctxFld)
+}
+
+// doneClausesReturn: every branch taken when the context is done - a select clause receiving from ctx.Done(), or the
+// body of `if ctx.Err() != nil` - ends by returning (want nil result when wantNil), without falling through to the
+// rest of the function. A ctx.Err() call used in any other way is not a recognised test (ok=false).
 func doneClausesReturn(info *types.Info, body ast.Node, ctxFld *types.Var, wantNil bool) (int, bool) {
 	n := 0
 	ok := true
-	eng.InspectNoLit(body, func(m ast.Node) bool {
-		cc, isC := m.(*ast.CommClause)
-		if !isC || cc.Comm == nil || !isDoneRecv(info, cc.Comm, ctxFld) {
-			return true
-		}
+	checkBody := func(stmts []ast.Stmt) {
 		n++
-		if len(cc.Body) == 0 {
+		if len(stmts) == 0 {
 			ok = false
-			return true
+			return
 		}
-		ret, isR := cc.Body[len(cc.Body)-1].(*ast.ReturnStmt)
+		ret, isR := stmts[len(stmts)-1].(*ast.ReturnStmt)
 		if !isR {
 			ok = false
-			return true
+			return
 		}
 		if wantNil && (len(ret.Results) != 1 || !eng.IsNil(info, ret.Results[0])) {
 			ok = false
 		}
-		// no break/continue/goto inside the clause
-		for _, st := range cc.Body {
+		// no break/continue/goto inside the branch
+		for _, st := range stmts {
 			ast.Inspect(st, func(x ast.Node) bool {
 				if _, isB := x.(*ast.BranchStmt); isB {
 					ok = false
 				}
 				return true
 			})
+		}
+	}
+	errCallsInIf := map[*ast.CallExpr]bool{}
+	eng.InspectNoLit(body, func(m ast.Node) bool {
+		switch t := m.(type) {
+		case *ast.CommClause:
+			if t.Comm != nil && isDoneRecv(info, t.Comm, ctxFld) {
+				checkBody(t.Body)
+			}
+		case *ast.IfStmt:
+			// if ctx.Err() != nil { ...; return }
+			if be, isB := ast.Unparen(t.Cond).(*ast.BinaryExpr); isB && be.Op == token.NEQ && t.Init == nil {
+				var call ast.Expr
+				if eng.IsNil(info, be.Y) {
+					call = be.X
+				} else if eng.IsNil(info, be.X) {
+					call = be.Y
+				}
+				if call != nil && isCtxErrCall(info, call, ctxFld) {
+					errCallsInIf[ast.Unparen(call).(*ast.CallExpr)] = true
+					checkBody(t.Body.List)
+				}
+			}
+		}
+		return true
+	})
+	eng.InspectNoLit(body, func(m ast.Node) bool {
+		if cl, isC := m.(*ast.CallExpr); isC && isCtxErrCall(info, cl, ctxFld) && !errCallsInIf[cl] {
+			ok = false
 		}
 		return true
 	})
